@@ -177,13 +177,26 @@ fn v1_bin_result(r: &Result<v1::Header<'_>, v1::BinaryParseError>) -> String {
 /// Owned copy must survive the input buffer being overwritten and dropped.
 fn v1_clobber(input: &[u8]) -> char {
     let mut buf = input.to_vec();
-    let (owned, text, addrs) = match v1::Header::try_from(&buf[..]) {
-        Ok(h) => (h.to_owned(), h.header.to_string(), h.addresses),
+    let (owned, text, addrs, proto, astr) = match v1::Header::try_from(&buf[..]) {
+        Ok(h) => (h.to_owned(), h.header.to_string(), h.addresses, h.protocol().to_string(), h.addresses_str().to_string()),
         Err(_) => return '-',
     };
+    // the header returned by `FromStr` is an owned copy too: take it from a String that is then
+    // overwritten and dropped
+    let mut parsed: Option<v1::Header<'static>> = None;
+    if let Ok(mut s) = String::from_utf8(buf.clone()) {
+        parsed = s.parse::<v1::Header<'static>>().ok();
+        // SAFETY-free clobber: replace every character by 'x' (same length is irrelevant, the
+        // String is dropped right after)
+        s = "x".repeat(s.len());
+        drop(s);
+    }
     buf.iter_mut().for_each(|b| *b = 0xAA);
     drop(buf);
-    b01(owned.header == text && owned.addresses == addrs && owned.to_string() == text)
+    let views = |o: &v1::Header<'static>| {
+        o.header == text && o.addresses == addrs && o.to_string() == text && o.protocol() == proto && o.addresses_str() == astr
+    };
+    b01(views(&owned) && parsed.as_ref().map_or(true, |p| views(p) && *p == owned))
 }
 
 fn op_v1b(input: &[u8]) -> String {
